@@ -303,7 +303,15 @@ fn check(ctx: &Ctx, c: &Case) -> PResult {
             if d.public_inputs.len() >= 2 { d.public_inputs.swap(0, 1); } else { d.public_inputs = vec![1, 0]; }
             "unsorted public-input rows"
         }
-        6 => { let p = d.public_inputs.first().copied().unwrap_or(0); d.public_inputs.insert(0, p); "duplicate public-input row" }
+        6 => {
+            // (a description without public inputs gets the same row twice;
+            // inserting a single row there would be a VALID description)
+            match d.public_inputs.first().copied() {
+                Some(p) => d.public_inputs.insert(0, p),
+                None => d.public_inputs = vec![2, 2],
+            }
+            "duplicate public-input row"
+        }
         7 => { let mut p = d.pack(); p.push(0xc0); raw_payload = Some(p); "trailing byte after the MessagePack value" }
         8 => { let mut s = d.encode(); s.extend_from_slice(&[0, 1, 2, 3]); raw_stream = Some(s); "trailing bytes after the deflate stream" }
         9 => {
